@@ -8,6 +8,7 @@ RULE = ("correspondence: SkToPk / Sign / Verify / PopProve / PopVerify / KeyGen 
         "one per bit-length band, random 255-bit; rejected keys 0,r,r+1,-1,2^255,non-int; messages empty, 1 byte, SHA-256 block "
         "boundaries 55/56/63/64/65, binary, multi-KiB; three suites; predicates: Verify(SkToPk(sk), m, Sign(sk, m)) and "
         "PopVerify(pk, PopProve(sk)) on the real code, ValidationError for rejected keys, KeyGen output in [1, r-1]")
+EXTRA_MODULES = {"Props.TieBls": "PyEcc.Tie."}
 HYPOTHESES = ["ModelBilinearCode (C01_ProtoModel / Lemmas/ModelPairing): the pairing function the code itself computes is additive in each argument on canonical on-curve subgroup triples — pairing(add(Q,Q'),P) == pairing(Q,P)*pairing(Q',P) and pairing(Q,add(P,P')) == pairing(Q,P)*pairing(Q,P') (HB1; needs divisor theory, not in Mathlib). It is the ONLY remaining hypothesis: group orders (HB2), hash_to_G2 total and in the subgroup (HT6), non-degeneracy (kernel-evaluated e(G2,G1) != 1 + cyclic torsion) and 'the Miller loop computes e' (representative independence via optimized = reference pairing) are all theorems"]
 NOT_YET_PROVED = ["bilinearity of the model pairing (sampled on model and implementation by C05's predicates)"]
 ASSUMPTIONS = []
